@@ -288,8 +288,15 @@ func checkC12(c *Ctx) {
 				if decorator.Fprint(&buf, m) != nil {
 					continue
 				}
-				for off := 0; off < 3; off++ {
+				for off := 0; off < 6; off++ {
 					src := denseComments(buf.Bytes(), off, 3)
+					switch off {
+					case 3:
+						src = denseComments(buf.Bytes(), 0, 1) // a comment behind every token
+					case 4, 5:
+						// two comments behind every second token (comment groups of two, e.g. two trailing comments)
+						src = bytes.ReplaceAll(denseComments(buf.Bytes(), off-4, 2), []byte(" /* g */"), []byte(" /* g */ /* h */"))
+					}
 					// reference pipeline without dst: where go/printer itself moves a comment across a token
 					// (tokens it prints without consulting a position, e.g. the '=' of an alias), the order of a
 					// fresh parse differs from any faithful position assignment; such inputs say nothing about dst
